@@ -35,21 +35,25 @@ func runNode(rng *rand.Rand, n int, out *Out, args []string) {
 	if err != nil {
 		panic(err)
 	}
-	workers := 4
-	if n < workers {
-		workers = n
-	}
-	if workers == 0 {
+	// the random histories go to four child processes; two more children run the fixed scenarios: twin nodes with gaps,
+	// a node asked at every momentum, Updates around a reward-tick boundary, late liquidity Update, Update starvation
+	scenarios := [][]string{{}, {}, {}, {}, {"twin", "asked", "repro"}, {"boundary", "asked", "starved"}}
+	const histWorkers = 4
+	if n == 0 {
 		return
 	}
+	workers := len(scenarios)
 	base := rng.Int63n(1 << 40)
 	files := make([]string, workers)
 	var wg sync.WaitGroup
 	errs := make([]error, workers)
 	for w := 0; w < workers; w++ {
-		k := n / workers
-		if w < n%workers {
-			k++
+		k := 0
+		if w < histWorkers {
+			k = n / histWorkers
+			if w < n%histWorkers {
+				k++
+			}
 		}
 		f, err := os.CreateTemp("", "c11node")
 		if err != nil {
@@ -58,18 +62,10 @@ func runNode(rng *rand.Rand, n int, out *Out, args []string) {
 		f.Close()
 		files[w] = f.Name()
 		a := []string{"nodeworker", "-seed", fmt.Sprint(base + int64(w)), "-n", fmt.Sprint(k), "-out", files[w]}
-		if w == 0 {
-			a = append(a, "repro")
+		if len(scenarios[w]) > 0 {
+			a = append(a, fmt.Sprintf("reps=%d", 1+n/20)) // quick: once; thorough (60 histories): four times, new draws
 		}
-		if w == 1 {
-			a = append(a, "starved")
-		}
-		if w == 2 {
-			a = append(a, "twin")
-		}
-		if w == 3 {
-			a = append(a, "asked")
-		}
+		a = append(a, scenarios[w]...)
 		wg.Add(1)
 		go func(w int, a []string) {
 			defer wg.Done()
@@ -121,22 +117,36 @@ func tail(s string, n int) string {
 }
 
 func runNodeWorker(rng *rand.Rand, n int, out *Out, args []string) {
-	if len(args) > 0 && args[0] == "repro" {
-		liquidityLateUpdate(out)
-	}
-	if len(args) > 0 && args[0] == "starved" {
-		starvedUpdates(rng, out)
-	}
-	if len(args) > 0 && args[0] == "asked" {
-		askedPointsHistory(rng, out)
-		if len(args) > 1 {
-			return
+	reps := 1
+	if len(args) > 0 {
+		if _, err := fmt.Sscanf(args[0], "reps=%d", &reps); err == nil {
+			args = args[1:]
 		}
 	}
-	if len(args) > 0 && args[0] == "twin" {
-		gappedTwin(rng, out)
-		if len(args) > 1 {
-			return
+	for r := 1; r < reps; r++ {
+		args = append(args, args[:len(args)/r]...)
+	}
+	for i := 0; i < len(args); i++ {
+		switch args[i] {
+		case "repro":
+			liquidityLateUpdate(out)
+		case "starved":
+			starvedUpdates(rng, out)
+		case "twin":
+			gappedTwin(rng, out)
+		case "asked":
+			askedPointsHistory(rng, out)
+		case "boundary":
+			// the first epoch of a reward tick: 30 (ZNN 10 -> 6 per momentum), 60, ..., 120 (QSR 20000 -> 15000); "boundary=N" fixes it
+			b := int64(constants.RewardTickDurationInEpochs) * pick64(rng, 1, 1, 2, 4)
+			boundaryBatches(rng, out, b)
+		default:
+			var b int64
+			if _, err := fmt.Sscanf(args[i], "boundary=%d", &b); err == nil {
+				boundaryBatches(rng, out, b)
+			} else {
+				panic("unknown scenario " + args[i])
+			}
 		}
 	}
 	for i := 0; i < n; i++ {
@@ -182,13 +192,15 @@ type stakeRef struct {
 }
 
 type nodeHist struct {
-	nd      *Node
-	rng     *rand.Rand
-	out     *Out
-	dur     int64
-	genesis int64
-	short   bool
-	auto    bool
+	nd       *Node
+	rng      *rand.Rand
+	out      *Out
+	dur      int64
+	genesis  int64
+	short    bool
+	auto     bool
+	probes   bool // read-only consensus queries at random moments
+	longGaps bool
 
 	addrIdx map[types.Address]int
 	nameIdx map[string]int
@@ -249,6 +261,20 @@ func (h *nodeHist) momentum() {
 	if h.rng.Intn(14) == 0 {
 		mock.VerifInsertMomentumSkipping(h.nd.Z, 1+h.rng.Intn(3))
 		h.out.Count("node:skipped-slots")
+	} else if h.longGaps && h.rng.Intn(250) == 0 {
+		// the rest of the epoch stays empty (whole empty election periods when the frontier is not in the last one), now
+		// and then the beginning of the next one too; the node is asked about the running epoch in front of the gap
+		perEpoch := h.dur / 10
+		k := perEpoch - 1 - h.frontierSlot()%perEpoch + pick64(h.rng, 0, 0, 1, periodSec/10)
+		if h.probes {
+			probeConsensus(h.rng, h.nd.Cs, *FrontierOf(h.nd.Ch).Timestamp, h.out)
+		}
+		if k > 0 {
+			mock.VerifInsertMomentumSkipping(h.nd.Z, int(k))
+			h.out.Count("node:gap-to-the-end-of-the-epoch")
+		} else {
+			h.nd.Momentum()
+		}
 	} else {
 		h.nd.Momentum()
 	}
@@ -823,6 +849,7 @@ func nodeHistory(rng *rand.Rand, out *Out) {
 	}
 	busyUntil := length - 40
 	probes := rng.Intn(3) != 0
+	h.probes, h.longGaps = probes, true
 	// reorganisations across an epoch boundary: around some boundaries nothing is sent for a few slots; once the chain
 	// is 1-3 slots into the new epoch (the statistics of the finished epoch may already have been computed and cached
 	// on this branch, by the node itself or by a probe) the last momentums - all empty, at least one of them in the
@@ -885,6 +912,17 @@ func probeConsensus(rng *rand.Rand, cs consensus.Consensus, now time.Time, out *
 			_, _ = rd.GetPillarWeights()
 		default:
 			_, _ = rd.GetPillarDelegationsByEpoch(e)
+		}
+	}
+	// the points behind them, of the previous, the running and the next epoch / election period
+	pts := consensus.VerifPoints(cs)
+	curP := pts.GetPeriodPoints().ToTick(now)
+	for d := uint64(0); d < 3; d++ {
+		if rng.Intn(2) == 0 && cur+1 >= d {
+			_, _ = pts.GetEpochPoints().GetPoint(cur + 1 - d)
+		}
+		if rng.Intn(2) == 0 && curP+1 >= d {
+			_, _ = pts.GetPeriodPoints().GetPoint(curP + 1 - d)
 		}
 	}
 	out.Count("node:read-only-consensus-probe")
